@@ -250,6 +250,9 @@ func init() {
 			permutationsV2(r, G, gs)
 		})
 		r.Phase("decoder re-use", func() { reusePhase(r, []int{3, 2}) })
+		r.Phase("decorations", func() { decorations(r, G, gs, []int{3, 2}) })
+		r.Phase("case variants", func() { caseVariants(r, G, gs, []int{3, 2}) })
+		r.Phase("value lattices", func() { valueLattices(r, G, gs, []int{3, 2}, thorough) })
 		r.Phase("enum", func() {
 			P := noScore
 			P.fields = true
@@ -285,6 +288,13 @@ func init() {
 			permutationsV2(r, G, gs)
 		})
 		r.Phase("decoder re-use", func() { reusePhase(r, []int{3, 2}) })
+		// whatever the library accepts among the decorated, wrapped, case-varied and other-version
+		// inputs and the complete value products owes the same encoding obligations (v2: the encoding
+		// is byte-identical to the input)
+		r.Phase("decorations", func() { decorations(r, G, gs, []int{3, 2}) })
+		r.Phase("case variants", func() { caseVariants(r, G, gs, []int{3, 2}) })
+		r.Phase("value lattices", func() { valueLattices(r, G, gs, []int{3, 2}, thorough) })
+		r.Phase("vectors of the other version", func() { crossVersion(r, G, gs, []int{3, 2}) })
 		r.Phase("enum", func() {
 			P := noScore
 			P.encode = true
